@@ -112,7 +112,8 @@ Fixpoint create_in (vis : itree -> bool) (m : nsmap) (ss : list step) (pos : npa
   match ss with
   | [] => COk t0 pos
   | s :: r =>
-      (* step.evaluate(node_set=(node,), namespaces) -- NOT shielded from the caller's ambient filters: iterate_children
+      (* step.evaluate(node_set=(node,), namespaces) under the filter `vis` in force (until fix 29367a2 the caller's ambient one; now
+         none: foc passes all_vis): iterate_children
          passes only the children the filter lets through (for the accepted steps, whose predicates do not look at
          positions, that is the unfiltered result with the invisible nodes removed); the _DocumentNode yields the root regardless *)
       let '(l0, fo) := d_step t0 m s ([(pos, t0)], None) in
@@ -164,6 +165,10 @@ Inductive foc_res :=
 
 Definition doc_root (D' : itree) (dflt : itree) : itree := match tkids D' with r :: _ => r | [] => dflt end.
 
+(* `vis`, the caller's ambient filter, no longer matters: _create_by_xpath is decorated with @altered_default_filters()
+   since fix 29367a2, so the creation walk and its append_children run with no filter (every child is visible, the new
+   element goes to the very end).  The parameter is kept so that the theorems can say "for every ambient filter". *)
+Definition all_vis (t : itree) : bool := true.
 Definition foc (vis : itree -> bool) (root : itree) (m_eval m_create : nsmap) (e : xpath_expr) (ctx : npath) : foc_res :=
   let D := docnode root in
   if negb (locatable e) then FocFault root (FRejected ValueError)
@@ -175,13 +180,13 @@ Definition foc (vis : itree -> bool) (root : itree) (m_eval m_create : nsmap) (e
            match e, ctx with
            | LocationPath true ss :: _, _ =>
                match pre_check m_create ss with Some f => FocFault root f | None =>
-               match create_in vis m_create ss [] D with
+               match create_in all_vis m_create ss [] D with
                | COk D' p => FocOk (doc_root D' root) p
                | CFault D' f => FocFault (doc_root D' root) f
                end end
            | LocationPath false ss :: _, _ :: q =>
                match pre_check m_create ss with Some f => FocFault root f | None =>
-               match create_in vis m_create ss ctx (opt_default root (subtree root q)) with
+               match create_in all_vis m_create ss ctx (opt_default root (subtree root q)) with
                | COk t' p => FocOk (replace_at root q t') p
                | CFault t' f => FocFault (replace_at root q t') f
                end end
